@@ -1,5 +1,6 @@
 import ShVerif.Model.C19
 import ShVerif.Proofs.C19
+import ShVerif.Proofs.C19Star
 /-
   C19 — Pathname expansion matches bash.  Property theorems about the model of
   expand.FieldsSeq / escapedGlobField / Config.glob / globDir (ShVerif/Model/C19.lean); the model is
@@ -198,29 +199,47 @@ theorem glob_nodup_statement_false : ¬ glob_nodup_statement := by
     revert this
     decide
 
-/-- What the `**` walk may reach from the prefix `d`: `d` itself and, repeatedly, the entries
-    (not starting with a dot unless dotglob; directories only when `wantDir`) of anything reached. -/
-inductive StarReach (rd : Reader) (base : Str) (dotglob wantDir : Bool) : Str → Str → Prop
-  | refl (d : Str) : StarReach rd base dotglob wantDir d d
-  | step {d y x : Str} {l : List Str} : StarReach rd base dotglob wantDir d y →
-      globDir rd base y (starName dotglob) wantDir = .ok l → x ∈ l → StarReach rd base dotglob wantDir d x
-
-def StepStar (rd : Reader) (mk : Matcher) (cfg : Cfg) (base : Str) (wantDir : Bool) (p d x : Str) : Prop :=
-  if isGlobStar cfg p = true then StarReach rd base cfg.dotglob wantDir (pathJoin2 d []) x
-  else Step rd mk cfg base wantDir p d x
-
-inductive SelStar (rd : Reader) (mk : Matcher) (cfg : Cfg) (base : Str) : List Str → Str → Str → Prop
-  | done (d : Str) : SelStar rd mk cfg base [] d d
-  | step {p : Str} {rest : List Str} {d x r : Str} :
-      StepStar rd mk cfg base (!rest.isEmpty) p d x → SelStar rd mk cfg base rest x r →
-      SelStar rd mk cfg base (p :: rest) d r
-
-/-- Model = specification for every pattern, `**` included (whenever the walk finishes): stated for
-    the record, NOT proved (the stack discipline of the walk is only checked by correspondence). -/
+/-- Model = specification for EVERY pattern, `**` included: whenever `glob` returns a list (the walk
+    finished within its fuel and no directory read failed), a non-empty path is in it iff it is
+    selected component by component, where a `**` component under globstar selects what the walk can
+    reach (`StarReach`: the prefix with a trailing slash, then repeatedly the entries — directories only
+    when more components follow, no leading dot unless dotglob — of anything reached).  `SelStar`,
+    `StarReach` are defined in Proofs/C19Star.lean.  No side condition: this is about the model (= the
+    code, by the tie); where `**` differs from bash is findings C19-globstar-follows-symlink,
+    C19-globstar-repeated (`glob_nodup_statement_false`), C19-globstar-zero-match-slash. -/
 def glob_spec_globstar_statement : Prop :=
   ∀ (rd : Reader) (mk : Matcher) (cfg : Cfg) (base pat : Str) (l : List Str),
     glob rd mk cfg base pat = .ok l → ∀ r, r ≠ [] →
       (r ∈ l ↔ SelStar rd mk cfg base (patParts pat) (patStart pat) r)
+
+theorem glob_spec_globstar : glob_spec_globstar_statement := by
+  intro rd mk cfg base pat l h r hr
+  unfold glob at h
+  unfold patParts patStart
+  by_cases hab : isAbs pat = true
+  · simp only [hab, if_true] at h ⊢
+    split at h
+    · cases h
+    · rename_i m hm
+      cases h
+      rw [mem_dropEmptyHead hr, mem_sortStrs, globLoop_selStar _ _ _ hm r]
+      simp
+  · have hab' : isAbs pat = false := by simpa using hab
+    simp only [hab', Bool.false_eq_true, if_false] at h ⊢
+    split at h
+    · cases h
+    · rename_i m hm
+      cases h
+      rw [mem_dropEmptyHead hr, mem_sortStrs, globLoop_selStar _ _ _ hm r]
+      simp
+
+/-- The walk itself: when it finishes, it has visited exactly the start prefixes and everything
+    reachable from them (each at least once; see `glob_nodup_statement_false` for "more than once"). -/
+theorem star_walk_visits (rd : Reader) (base : Str) (dotglob wantDir : Bool) (fuel : Nat)
+    (start out : List Str) (h : starWalk rd base dotglob wantDir fuel start [] = some out) (x : Str) :
+    x ∈ out ↔ ∃ d ∈ start, StarReach rd base dotglob wantDir d x := by
+  rw [starWalk_mem fuel start [] out h x]
+  simp
 
 /-! ## non-vacuity -/
 
